@@ -205,5 +205,55 @@ theorem decrement_total (t : Transport) (n : Nat) (hv : t.ValidLoop n) :
       have hv' : ls < le ∧ le ≤ n := by simpa [ValidLoop, hl] using hv
       exact ⟨_, decrement_loop t ls le hp hl hv'.1, by simp [hl]⟩
 
+/-- a loop region the wrap loops can handle: non-empty (`ls < le`); it may reach past the end of the sound -/
+def LoopOk (t : Transport) : Prop :=
+  match t.loopRegion with
+  | some (ls, le) => ls < le
+  | none => True
+
+theorem ValidLoop.loopOk {t : Transport} {n : Nat} (h : t.ValidLoop n) : t.LoopOk := by
+  unfold ValidLoop at h; unfold LoopOk
+  cases hl : t.loopRegion with
+  | none => trivial
+  | some r => obtain ⟨ls, le⟩ := r; simp only [hl] at h; exact h.1
+
+/-- whatever region is requested, what `validLoop` keeps is non-empty -/
+theorem loopOk_of_validLoop (lr : Option (Nat × Nat)) (p : Nat) (pl : Bool) :
+    (⟨p, validLoop lr, pl⟩ : Transport).LoopOk := by
+  unfold LoopOk
+  cases lr with
+  | none => simp
+  | some r =>
+    obtain ⟨a, b⟩ := r
+    by_cases hab : a < b
+    · simp [validLoop_some_of_lt a b hab, hab]
+    · simp [validLoop_some_of_not_lt a b hab]
+
+theorem increment_total' (t : Transport) (n : Nat) (hv : t.LoopOk) :
+    ∃ t', t.increment n = .ok t' ∧ t'.loopRegion = t.loopRegion := by
+  cases hp : t.playing with
+  | false => exact ⟨t, increment_stopped t n hp, rfl⟩
+  | true =>
+    cases hl : t.loopRegion with
+    | none => exact ⟨_, increment_noLoop t n hp hl, by simp [hl]⟩
+    | some r =>
+      obtain ⟨ls, le⟩ := r
+      have hv' : ls < le := by simpa [LoopOk, hl] using hv
+      exact ⟨_, increment_loop t n ls le hp hl hv', by simp [hl]⟩
+
+theorem decrement_total' (t : Transport) (hv : t.LoopOk) :
+    ∃ t', t.decrement = .ok t' ∧ t'.loopRegion = t.loopRegion := by
+  cases hp : t.playing with
+  | false => exact ⟨t, decrement_stopped t hp, rfl⟩
+  | true =>
+    cases hl : t.loopRegion with
+    | none =>
+      refine ⟨_, decrement_noLoop t hp hl, ?_⟩
+      by_cases h0 : t.position = 0 <;> simp [h0, hl]
+    | some r =>
+      obtain ⟨ls, le⟩ := r
+      have hv' : ls < le := by simpa [LoopOk, hl] using hv
+      exact ⟨_, decrement_loop t ls le hp hl hv', by simp [hl]⟩
+
 end Transport
 end K
